@@ -1,6 +1,7 @@
 package rules
 
 import (
+	"os"
 	"fmt"
 	"go/constant"
 	"go/token"
@@ -193,6 +194,13 @@ func runC03(c *Ctx) {
 	pkgs := []string{"./align/"}
 	for _, r := range c03Pkgs {
 		pkgs = append(pkgs, "./"+r+"/")
+	}
+	if os.Getenv("VERIF_BCE_SURVEY") != "" {
+		for _, f := range c.P.SrcFuncs() {
+			if f.Pkg != nil && strings.HasSuffix(f.Pkg.Pkg.Path(), "/align") {
+				bscope[f] = true
+			}
+		}
 	}
 	c.checkBCE("unchecked-index", pkgs, bscope, c03Justified, 5)
 	L.Floor("unchecked-index", 2, "residual index expressions of the parser scope on the pinned tree (floor = half of the instances on the pinned tree: a clean-up may merge instances, a rule that sees nothing must still fail)")
